@@ -358,6 +358,12 @@ def make_builtins(I):
                 return False
             raise
 
+    @reg("hash")
+    def _hash(it, a, k):
+        # not modelled on purpose: CPython's hash is not injective (hash(-1) == hash(-2), tuples hash by their
+        # elements' hashes), so code that uses it as an identity cannot be given a sound functional model here
+        raise Unsupported("builtin hash() (not injective: hash(-1) == hash(-2))")
+
     @reg("callable")
     def _callable(it, a, k):
         from .interp import BoundMethod, BuiltinVal, ClassVal, FuncVal
@@ -900,6 +906,19 @@ def concat_parts(it, parts, kind):
 def unpack(it, v, targets):
     n = len(targets)
     star = [i for i, t in enumerate(targets) if isinstance(t, ast.Starred)]
+    if isinstance(v, SymDict) and not star and n == 1 and not it.term_mode:
+        # (k,) = d : d must have exactly one key.  Split on "some key w is the only one"; the witness is fresh.
+        w = z3.Const(it.ctx.fresh_name("onlykey"), v.kty.sort())
+        q = z3.Const(it.ctx.fresh_name("uq"), v.kty.sort())
+        exactly_one = z3.And(z3.Select(v.has, w), z3.ForAll([q], z3.Implies(z3.Select(v.has, q), q == w)))
+        choice = it.ctx.decide(2, None, "unpack1")
+        if choice == 0:
+            it.ctx.assume(exactly_one)
+            return [it.lift(w, v.kty)]
+        # not exactly one key: no key at all, or two different ones
+        a_, b_ = z3.Const(it.ctx.fresh_name("ka"), v.kty.sort()), z3.Const(it.ctx.fresh_name("kb"), v.kty.sort())
+        it.ctx.assume(z3.Or(z3.ForAll([q], z3.Not(z3.Select(v.has, q))), z3.And(z3.Select(v.has, a_), z3.Select(v.has, b_), a_ != b_)))
+        raise PyRaise("ValueError", "unpack of a dict that does not have exactly one key")
     items = concrete_iter(it, v)
     if items is not None:
         if star:
@@ -1793,11 +1812,24 @@ def comp_keyiter(it, e, env, kind, ki):
         inv = None
         if z3.is_app(kv.t) and kv.t.num_args() >= 1 and z3.eq(kv.t.arg(0), s):
             inv = getattr(it, "invertible", {}).get(kv.t.decl().name())
-        if inv is None:
+        hook = getattr(it, "rekey_inverse", None)
+        if inv is None and hook is not None:
+            # the contract supplies a candidate pre-image g(k') of the key function (e.g. "remove the inserted
+            # component"); the model below is only sound if no two stored entries collapse onto one key:
+            # that is an obligation, not an assumption
+            pre = hook(it, kv.t, s, k2)
+            if pre is None:
+                raise Unsupported("re-keyed dict comprehension: the contract gives no pre-image for this key function")
+            s2 = z3.Const(it.ctx.fresh_name("rk3"), ki.kty.sort())
+            fn_name = it.frames[-1].func.qualname if it.frames else "?"
+            it.ctx.oblige(f"{fn_name}.rekeyed_comprehension.no_two_stored_entries_get_the_same_key", z3.ForAll([s, s2], z3.Implies(z3.And(z3.Select(ki.has, s), z3.Select(ki.has, s2), kv.t == z3.substitute(kv.t, (s, s2))), s == s2)))
+            ok = z3.substitute(kv.t, (s, pre)) == k2
+        elif inv is None:
             raise Unsupported("re-keyed dict comprehension with a key function that has no registered inverse")
-        extra = [kv.t.arg(i) for i in range(1, kv.t.num_args())]
-        pre = inv(k2, *extra)
-        ok = z3.substitute(kv.t, (s, pre)) == k2
+        else:
+            extra = [kv.t.arg(i) for i in range(1, kv.t.num_args())]
+            pre = inv(k2, *extra)
+            ok = z3.substitute(kv.t, (s, pre)) == k2
     keep = [z3.substitute(c, (s, pre)) for c in conds]
     has2 = z3.Lambda([k2], z3.And(z3.Select(ki.has, pre), ok, *keep))
     val2 = z3.Lambda([k2], z3.substitute(vterm, (s, pre)))
